@@ -54,3 +54,18 @@ package coreutils
 //@   assigns nothing
 //@ extern (*types.Block).V2Transactions
 //@   assigns nothing
+//
+// Currency as a natural number (assumed contracts on go.sia.tech/core/types):
+//@ pred cval(c types.Currency) = c.Hi * 18446744073709551616 + c.Lo
+//@ extern (types.Currency).Cmp pure
+//@   ensures -1 <= result && result <= 1 && (result < 0 <==> cval(c) < cval(v)) && (result > 0 <==> cval(c) > cval(v))
+//@ extern (types.Currency).IsZero pure
+//@   ensures result <==> cval(c) == 0
+//@ extern (types.Currency).Equals pure
+//@   ensures result <==> c == v
+// Add panics on overflow; sums of wallet outputs stay below 2^128 (total supply): assumed.
+//@ extern (types.Currency).Add pure
+//@   ensures cval(result) == cval(c) + cval(v)
+// Sub panics on underflow; its callers are checked through their own postconditions.
+//@ extern (types.Currency).Sub pure
+//@   ensures cval(c) >= cval(v) ==> cval(result) == cval(c) - cval(v)
